@@ -292,6 +292,17 @@ class WriterExtractor:
                     if r is not None:
                         env[tg.id] = r
                         return None
+                # x = None if <field> is None else f(<field>)   /   x = f(<field>) if <field> is not None else None :
+                # x is None exactly when the field is, and otherwise carries the field (through f)
+                if isinstance(v, ast.IfExp) and isinstance(v.test, ast.Compare) and len(v.test.ops) == 1 and isinstance(v.test.comparators[0], ast.Constant) and \
+                        v.test.comparators[0].value is None and isinstance(v.test.ops[0], (ast.Is, ast.IsNot)):
+                    none_arm, val_arm = (v.body, v.orelse) if isinstance(v.test.ops[0], ast.Is) else (v.orelse, v.body)
+                    if isinstance(none_arm, ast.Constant) and none_arm.value is None:
+                        tested = self._src(v.test.left, env, fi)
+                        carried = self._src(val_arm, env, fi)
+                        if tested.kind in ("field", "elem") and carried.kind == tested.kind and carried.path == tested.path:
+                            env[tg.id] = ("src", carried)
+                            return None
                 try:
                     val = self.folder.fold(v, fi.module, None, cls_q)
                     env[tg.id] = ("const", val)
